@@ -305,7 +305,7 @@ class Engine:
         except BaseException as e:
             rec.enter_error = canon(e)
             rec.dead = True
-            if rec.spec.get("expect_refusal"):
+            if rec.spec.get("expect_refusal") or rec.spec.get("may_refuse"):
                 self.sim.reach("activation_refused")
                 return "refused"
             return ["enter-error", canon(e)]
